@@ -228,6 +228,14 @@ impl Check for C25 {
     fn cases(&self, tier: Tier) -> u32 {
         tier.pick(60000, 800000)
     }
+    fn fixed_cases(&self) -> Vec<GCase> {
+        // recorded finding: a title that ends with an escaped backslash, followed by a rendered
+        // double-quoted comment declaration
+        let mut g = Grammar::new("S", vec![Prod { lhs: "S".into(), alts: vec![vec![Factor::t("a")]] }]);
+        g.title = Some("\\d+ \\\\".to_string());
+        g.initial.line_comments.push(Lit::raw("//"));
+        vec![GCase { grammar: g, tape: vec![] }]
+    }
     fn run(&self, case: &GCase, st: &mut Stats) -> Verdict {
         let text = case.grammar.print();
         let g1 = match pipeline::read_grammar(&text) {
@@ -255,8 +263,13 @@ impl Check for C25 {
                 let i = a.iter().zip(&b).position(|(x, y)| x != y).unwrap_or(a.len().min(b.len()));
                 let (x, y) = (a.get(i).cloned().unwrap_or_default(), b.get(i).cloned().unwrap_or_default());
                 let what = x.split_whitespace().next().unwrap_or("?").to_string();
+                // a string whose text ends with a backslash: parol's String pattern lets `\"` both
+                // end the string and continue it, the longest match wins when another quote follows
+                let trailing_backslash = |o: &Option<String>| o.as_ref().is_some_and(|s| s.ends_with('\\'));
                 let sig = if what == "scanner" && x.replace("allow_unmatched true", "allow_unmatched false") == y {
                     "C25:allow_unmatched_lost".to_string()
+                } else if (what == "title" && trailing_backslash(&gc.title)) || (what == "comment" && trailing_backslash(&gc.comment)) {
+                    "C25:string_ending_in_a_backslash_swallows_text_up_to_the_next_quote".to_string()
                 } else {
                     format!("C25:{what}_differs_after_round_trip")
                 };
